@@ -29,6 +29,8 @@ CHECKS = {
          "Lean 4 proof by kernel evaluation over regenerated registry tables (translator tie) + sampled parameterisations", "5/C09"),
  "C15": ("Lean theorems generic in the attribute vocabulary: update_column(s) keep every attribute the call does not name and set the named ones (rebuild_keeps / updateColumn_frame); set_index / reset_index carry every Index attribute both ways (levelOf_attrs, columnOf_attrs, reset_set_attrs); inverse laws select-all and remove-after-add; invalid requests are errors (no schema); any operation sequence leaves the dataframe-level attributes alone (applyAll_top); remove_columns and reset_index mirror df.drop / df.reset_index for an arbitrary component verdict (reset partial: not ordered, with a witness for the recorded region). Per-run obligations by `decide` over the tables regenerated from the source: every Column.__init__ parameter is a Column.properties key (pandas, polars); set_index/reset_index copy every Index.__init__ parameter. Differential: random operation sequences on real schemas carrying every attribute vs the model, frame conditions, inverse laws, verdict of the transformed schema on the transformed frame",
          "Lean 4 proof (attribute-map model of the transformation methods) + translator (constructor / properties / keyword tables) + differential correspondence over operation sequences", "5/C15"),
+ "C12": ("Lean theorems: the check-statistics codec round-trips (deser_ser_check: unary collapse, the `value` special case, `options`), checks keyed by name round-trip exactly when the names are distinct (deser_ser_checks; same_kind_checks_collapse is the witness of the recorded region); a script slot reads back as the value it was filled with whenever its filling mode is adequate for the kind of value (seen_lit_of_modeOk) and bare/hand-quoted text does not (witnesses). Per-run obligations by `decide` over tables regenerated from pandas_io.py / checks.py: every serialisable attribute of Column, Index and DataFrameSchema has a template slot filled from that attribute in an adequate mode; filled keywords = slots = constructor parameters; the fills read existing statistics keys; writer and reader key sets agree; a unary built-in's statistic is the first positional parameter. Differential: from_yaml(to_yaml(S)), from_json(to_json(S)), exec(to_script(S)) compared attribute by attribute and with ==, text idempotence, verdicts on probe frames; the model's codec vs serialize_schema",
+         "Lean 4 proof (check codec, slot modes) + translator (script slot / key tables) + differential round trips", "5/C12"),
 }
 NA = {}
 for i in range(1, 21):
